@@ -11,7 +11,8 @@
 //	      s  backed by an (immutable) Go string: a sub-string big[o:o+n]; byte arguments are the zero-copy
 //	         view of that sub-string (what zero-copy conversions in applications hand to the driver)
 //	      c  through a copying conversion: []byte(string(placed)) / string(placed bytes)
-// off   address of the first byte modulo 16 for the FIRST argument; argument word i gets (off + 5*i) mod 16
+//	      x  like h, the argument STRADDLING a 4096-byte page boundary (the boundary falls into its middle block)
+// off   address of the first byte modulo 16 for the FIRST argument; the argument at word index i (1, 2, …) gets (off + 5*(i-1)) mod 16
 // spare capacity behind the argument (cap = len + spare); 16 more bytes of the buffer lie behind that
 // fill  hex byte the buffer is filled with before and behind the argument
 //
@@ -38,7 +39,7 @@ type placement struct {
 var bufPool = sync.Pool{New: func() interface{} { b := make([]byte, 4096); return &b }}
 
 func parsePl(w string) *placement {
-	if len(w) < 3 || w[0] != '@' || !strings.ContainsRune("hpsc", rune(w[1])) {
+	if len(w) < 3 || w[0] != '@' || !strings.ContainsRune("hpscx", rune(w[1])) {
 		return nil
 	}
 	f := strings.Split(w[2:], ".")
@@ -71,7 +72,7 @@ func (p *placement) release() {
 // layout: a buffer of `need` bytes filled with p.fill, the key at index start with (address of buf[start]) % 16 == o
 func (p *placement) buffer(i int, key []byte) (buf []byte, start int) {
 	n := len(key)
-	o := (p.off + 5*i) & 15
+	o := (p.off + 5*(i-1)) & 15
 	need := 32 + n + p.spare + 16
 	if p.src == 'p' {
 		pb := bufPool.Get().(*[]byte)
@@ -86,6 +87,16 @@ func (p *placement) buffer(i int, key []byte) (buf []byte, start int) {
 	}
 	base := uintptr(unsafe.Pointer(&buf[0]))
 	start = 16 + int((uintptr(o)-base)&15)
+	if p.src == 'x' {
+		// address of the first byte = o modulo 16, and a page boundary inside the block in the middle of the key
+		buf = make([]byte, need+8192)
+		base = uintptr(unsafe.Pointer(&buf[0]))
+		target := uintptr(4096+o) - uintptr((n/2)&^15) - 16
+		start = int((target - base) & 4095)
+		if start < 16 {
+			start += 4096
+		}
+	}
 	for k := range buf {
 		buf[k] = p.fill
 	}
@@ -101,7 +112,7 @@ func (p *placement) bytes(i int, key []byte) []byte {
 		return key
 	}
 	n := len(key)
-	o := (p.off + 5*i) & 15
+	o := (p.off + 5*(i-1)) & 15
 	buf, start := p.buffer(i, key)
 	switch p.src {
 	case 's':
@@ -147,7 +158,7 @@ func (p *placement) str(i int, s string) string {
 		return s
 	}
 	n := len(s)
-	o := (p.off + 5*i) & 15
+	o := (p.off + 5*(i-1)) & 15
 	buf, start := p.buffer(i, []byte(s))
 	switch p.src {
 	case 's':
@@ -161,6 +172,23 @@ func (p *placement) str(i int, s string) string {
 	return unsafe.String(&buf[start], n)
 }
 
+// value places a bound value: a []byte / string lies at the placement's address, every other value is left alone
+func (p *placement) value(i int, v interface{}) interface{} {
+	if p == nil {
+		return v
+	}
+	switch x := v.(type) {
+	case []byte:
+		if x == nil {
+			return v
+		}
+		return p.bytes(i, x)
+	case string:
+		return p.str(i, x)
+	}
+	return v
+}
+
 var fills = []byte{0x00, 0xff, 0x80, 0x5a, 0x01, 0x7f}
 
 // genPl: a placement word with the given offset (or a random one if off < 0)
@@ -168,10 +196,7 @@ func genPl(r *vh.Rng, off int) string {
 	if off < 0 {
 		off = r.Intn(16)
 	}
-	src := "hhhpps c"[r.Intn(8)]
-	if src == ' ' {
-		src = 'h'
-	}
+	src := "hhhppscx"[r.Intn(8)]
 	spare := []int{0, 0, 1, 3, 7, 8, 16, 40}[r.Intn(8)]
 	return (&placement{src: src, off: off, spare: spare, fill: r.PickByte(fills)}).String()
 }
